@@ -617,6 +617,7 @@ type retInfo struct {
 	results []Val
 	st      *State
 	pos     token.Pos
+	block   *ssa.BasicBlock
 }
 
 type rangeState struct {
